@@ -109,7 +109,14 @@ def generate(ctx, batch, idx):
         ks = [_pick(r) for _ in range(r.randint(2, 4))]
         if any(k is None for k in ks):
             return None
-        return {"kind": "ttc", "fonts": ks, "share": r.random() < 0.6, "dsig": r.choice([None, None, "none", "data"]), "cfg": _cfg(r), "ops": []}
+        h = {"kind": "ttc", "fonts": ks, "share": r.random() < 0.6, "dsig": r.choice([None, None, "none", "data"]), "cfg": _cfg(r), "ops": []}
+        if r.random() < 0.4:
+            # members built from one source that share table *objects* (as an editor assembling a
+            # collection would) and were edited after loading
+            h["fonts"] = [ks[0]] * r.randint(2, 3)
+            h["objshare"] = sorted(r.sample(["hmtx", "glyf", "name", "GSUB", "GPOS", "cmap", "OS/2"], r.randint(1, 3)))
+            h["ops"] = [[r.choice(["hmtx", "hmtx", "glyfshift", "name", "cmap"]), {"k": r.randrange(1 << 16), "seed": r.randrange(1 << 30), "m": r.randrange(4)}] for _ in range(r.randint(1, 3))]
+        return h
     raise ValueError(batch)
 
 
@@ -391,6 +398,21 @@ def exec_ttc(ctx, h, scratch):
         for k in h["fonts"]:
             f = TTFont(io.BytesIO(_src(k, False)), lazy=cfg["lazy"], recalcBBoxes=cfg["recalcBBoxes"], recalcTimestamp=False)
             fonts.append(f)
+        if h.get("objshare"):
+            from props import c16
+
+            for f in fonts:
+                f.ensureDecompiled()
+            for name, a in h["ops"]:
+                tgt = fonts[a.get("m", 0) % len(fonts)]
+                c16.apply_edit(tgt, name, a)
+            for f in fonts[1:]:
+                for t in h["objshare"]:
+                    if t in fonts[0] and t in f:
+                        f[t] = fonts[0][t]
+                        if t == "glyf" and "loca" in f:
+                            f["loca"] = fonts[0]["loca"]
+            probes["ttc.shared_objects"] = 1
         coll = TTCollection()
         coll.fonts = fonts
         if h["dsig"] == "none":
@@ -420,11 +442,34 @@ def exec_ttc(ctx, h, scratch):
     kind, members, errs = validate(out, probes, "ttc")
     events.append([h["fonts"], h["share"], prng.bdigest(out), len(errs)])
     res["states"].append("ttc|%s|%s|%s" % (len(h["fonts"]), h["share"], h["dsig"]))
-    where = " [fonts=%s share=%s dsig=%s dest=%s]" % (h["fonts"], h["share"], h["dsig"], cfg["dest"])
+    where = " [fonts=%s share=%s dsig=%s dest=%s objshare=%s ops=%s]" % (h["fonts"], h["share"], h["dsig"], cfg["dest"], h.get("objshare"), [o[0] for o in h.get("ops", [])])
     if errs:
         _fail(res, "invalid-container:ttc:" + errs[0].split(" ")[0], "TTC violates container rules: %s" % errs[:4] + where, kind="ttc")
     elif len(members) != len(h["fonts"]):
         _fail(res, "ttc-member-count", "%d members written for %d fonts" % (len(members), len(h["fonts"])) + where)
+    elif h.get("objshare"):
+        # edited members: every member must be self-consistent (metric counts, derived fields) and decode
+        # to the metrics of the object that was saved for it
+        for i, m in enumerate(members):
+            f = fonts[i]
+            for hd, mt in (("hhea", "hmtx"), ("vhea", "vmtx")):
+                if mt in m and hd in m and "maxp" in m and mt in f and hasattr(f[mt], "metrics"):
+                    got = oglyf.read_metrics(m, hd, mt)
+                    want = [tuple(int(round(v)) for v in f[mt].metrics[g]) for g in f.getGlyphOrder()]
+                    probes["metrics.checked"] = probes.get("metrics.checked", 0) + 1
+                    if got is None:
+                        _fail(res, "ttc-member-metrics-inconsistent:" + mt, "member %d: %s/%s/maxp do not fit together (numberOfMetrics vs table length vs numGlyphs)" % (i, hd, mt) + where, table=mt)
+                    elif got != want:
+                        j = next((j for j, (a, b) in enumerate(zip(got, want)) if a != b), None)
+                        _fail(res, "stored-metrics-differ-from-saved-object:" + mt, "member %d: glyph %s decodes to %s, saved object has %s" % (i, j, got[j] if j is not None else len(got), want[j] if j is not None else len(want)) + where, table=mt)
+            if cfg["recalcBBoxes"] and all(t in m for t in ("glyf", "loca", "head", "maxp", "hhea", "hmtx")):
+                try:
+                    derr = oglyf.derived(m)
+                except Exception as e:
+                    derr = ["derived-field parser failed: %s: %s" % (type(e).__name__, e)]
+                probes["derived.checked"] = probes.get("derived.checked", 0) + 1
+                if derr:
+                    _fail(res, "derived-field-wrong:" + derr[0].split(" ")[0], "TTC member %d, recomputed from the saved data: %s" % (i, derr[:3]) + where, field=derr[0].split(" ")[0])
     else:
         # each member carries the tables of its font; shared tables really are identical bytes
         for i, (k, m) in enumerate(zip(h["fonts"], members)):
